@@ -3,9 +3,10 @@
 
   case   := "sql" DB " ; " STMT (" ; " STMT)*
   DB     := TABLE ("/" TABLE)*            one word, tables are t0, t1, … in this order
-  TABLE  := TYS "=" [ROW ("|" ROW)*]      TYS: one letter per column  I=INT B=BIGINT O=BOOL S=TEXT ; columns are c0, c1, …
+  TABLE  := TYS "=" [ROW ("|" ROW)*]      TYS: one letter per column  I=INT B=BIGINT O=BOOL S=TEXT D=DOUBLE ; columns are c0, c1, …
   ROW    := VAL ("," VAL)*
   VAL    := "n" | "i"<decimal> | "b0" | "b1" | "t"<hex of the bytes> | "t-" (empty text)
+          | "f"<IEEE-754 bits, decimal>        a DOUBLE (in D columns and as a literal compared with them; compare-only)
 
   STMT (space separated words, prefix notation, every operator has a fixed arity):
     sel (all|distinct) F W g<k> E×k a<k> AGG×k [hv E] P o<k> ORD×k lim(<n>|-) off(<n>|-)
@@ -61,6 +62,7 @@ def toP : Expr → PExpr
   | .lit (.bool b) => .bool b
   | .lit (.text t) => .str t
   | .lit (.rat n _) => .num n
+  | .lit (.dbl _) => .null    -- decimal literals are not in the parser model: `reparse` leaves such expressions alone
   | .col i => .ident (99 :: (toString i).toList.map Char.toNat)
   | .not e => .un .not (toP e)
   | .neg e => .un .neg (toP e)
@@ -126,7 +128,7 @@ end
 
 mutual
 def hasCase : Expr → Bool
-  | .caseWhen _ | .caseOf _ _ | .strFn _ _ => true
+  | .caseWhen _ | .caseOf _ _ | .strFn _ _ | .lit (.dbl _) => true
   | .not e | .neg e | .pos e | .isNull _ e => hasCase e
   | .and a b | .or a b | .cmp _ a b | .arith _ a b | .like _ a b | .concat a b => hasCase a || hasCase b
   | .between _ a b c => hasCase a || hasCase b || hasCase c
@@ -168,6 +170,31 @@ def shippedParserTable (flags : List String) : Option Parser.Table :=
 
 /-! ### reading -/
 
+/-! ### DOUBLE values travel as `f<bits>` (IEEE-754 bit pattern, decimal); the model keeps their order key.
+    Only integer arithmetic on the bit pattern is used. -/
+
+def two63 : Nat := 9223372036854775808
+
+def dblKeyOfBits (b : Nat) : Int := if b < two63 then (b : Int) else -(((b - two63 : Nat)) : Int)
+
+def dblBitsOfKey (k : Int) : Nat := if k ≥ 0 then k.toNat else two63 + (-k).toNat
+
+/-- the integer a double holds, if it holds one (of magnitude below 2^62): the harness prints such doubles as integers -/
+def dblInteger? (bits : Nat) : Option Int :=
+  let neg := decide (bits ≥ two63)
+  let mag := bits % two63
+  let e := mag / 2 ^ 52
+  let m := 2 ^ 52 + mag % 2 ^ 52
+  let signed : Nat → Int := fun n => if neg then -(n : Int) else (n : Int)
+  if mag == 0 then some 0
+  else if e == 0 || e == 2047 then none
+  else if e ≥ 1075 then
+    if e - 1075 ≥ 10 then none else some (signed (m * 2 ^ (e - 1075)))
+  else
+    let sh := 1075 - e
+    if sh > 52 then none
+    else if m % 2 ^ sh == 0 then some (signed (m / 2 ^ sh)) else none
+
 def valOfWord (w : String) : Option Value :=
   match w.toList with
   | ['n'] => some .null
@@ -175,6 +202,7 @@ def valOfWord (w : String) : Option Value :=
   | ['b', '1'] => some (.bool true)
   | 'i' :: rest => (String.ofList rest).toInt?.map .int
   | 't' :: rest => (bytesOfHex (String.ofList rest)).map (fun bs => .text (bs.map (·.toNat)))
+  | 'f' :: rest => (String.ofList rest).toNat?.map (fun b => .dbl (dblKeyOfBits b))
   | _ => none
 
 def allSome {α} : List (Option α) → Option (List α)
@@ -183,7 +211,7 @@ def allSome {α} : List (Option α) → Option (List α)
   | some a :: r => (allSome r).map (a :: ·)
 
 def tyOfChar : Char → Option Ty
-  | 'I' => some .int | 'B' => some .bigint | 'O' => some .bool | 'S' => some .text
+  | 'I' => some .int | 'B' => some .bigint | 'O' => some .bool | 'S' => some .text | 'D' => some .double
   | _ => none
 
 def parseTable (w : String) : Option TableDef :=
@@ -430,6 +458,10 @@ def showVal : Value → String
   | .rat n d =>
     if d != 0 && n % (d : Int) == 0 then s!"i{n / (d : Int)}"
     else s!"f{natOfBits (Float.ofInt n / Float.ofNat d)}"
+  | .dbl k =>
+    match dblInteger? (dblBitsOfKey k) with
+    | some i => s!"i{i}"
+    | none => s!"f{dblBitsOfKey k}"
 
 def showRow (r : Row) : String := joinWith "," (r.map showVal)
 
